@@ -166,3 +166,29 @@ func RefereeJq(ctx *Ctx, st *Stream, srcs []string, inputs []any) int {
 	}
 	return confirmed
 }
+
+
+// JqAvailable reports whether the reference binary exists.
+func JqAvailable() bool {
+	_, err := exec.LookPath(jqBin)
+	return err == nil
+}
+
+// CoarseOutcome renders a canonical outcome line in the coarse form used with jq 1.6
+// (numbers as float64, error text dropped).
+func CoarseOutcome(canon string) (string, bool) {
+	outs, end, ok := parseOutcome(canon)
+	if !ok {
+		return "", false
+	}
+	return strings.Join(outs, " ; ") + " ; " + end, true
+}
+
+// JqOutcome runs jq 1.6 and renders its outcome in the same coarse form.
+func JqOutcome(src string, input any) (string, bool) {
+	outs, end, ok := runJq(src, input)
+	if !ok {
+		return "", false
+	}
+	return strings.Join(outs, " ; ") + " ; " + end, true
+}
